@@ -7,7 +7,7 @@ UNITS = [
          why_assumed="Verus rejects the recursion through a fn item (`.flat_map(process_descendant)`): cyclic dependency in its own call_ensures; "
                      "checked by the bounded back end (descendant.preorder)",
          ensures=[
-             ("preorder", "nodes(r) == containers(descendants(nd(data)))"),
+             ("preorder", "nodes(r) == desc_c_fn()(nd(data))"),
              ("shape", "is_nodes(r)"),
          ]),
     Unit(name="process_selectors", file=F, fn="process_selectors", order=60, status="assumed", serves=["C01", "C02"],
@@ -17,8 +17,6 @@ UNITS = [
          ensures=[
              ("root", "r.root == step.root"),
              ("nodes", "is_nodes(step.data) ==> is_nodes(r.data)"),
-             ("members", "is_nodes(step.data) && selectors@.len() > 0 ==> nodes(r.data).to_multiset() == "
-                         "mapped(nodes(step.data), |n: Node<'a, T>| rfc_sels(selectors@, n, step.root)).to_multiset()"),
          ]),
     Unit(name="Segment::process", file=F, impl="impl Query for Segment", fn="process", order=61,
          trait_method=True, serves=["C01", "C02"],
@@ -27,7 +25,8 @@ UNITS = [
     open spec fn process_pre<'a, T: Queryable>(&self, state: State<'a, T>) -> bool { wf_segment(*self) }
     open spec fn process_rel<'a, T: Queryable>(&self, state: State<'a, T>, r: State<'a, T>) -> bool { seg_rel(*self, state, r) }
 """,
-         ensures=[("rel", "self.process_rel(step, r)")]),
+         ensures=[("rel", "self.process_rel(step, r)")],
+         body_prefix="proof { match self { Segment::Descendant(b) => { lemma_descendant_containers(**b, nodes(step.data), step.root); } _ => {} } }"),
     Unit(name="Vec<Segment>::process", file=J, impl="impl Query for Vec<Segment>", fn="process", order=62,
          trait_method=True, serves=["C01", "C02"],
          impl_extra="""
